@@ -58,10 +58,14 @@ type config struct {
 	//   mw  Use("/u/:tenant", first) in front of the endpoint: a second route matches after Next()
 	//   rr  like mw, but the middleware calls RestartRouting() on its first visit, Next() on the second
 	//   po  like mw, but the middleware overrides the path (c.Path("/u/ovr<name>/-/<rest>")) before Next()
+	// no endpoint is reached; the accessor set runs in a custom ErrorHandler (c.route == nil there):
+	//   nf  no route matches at all (404)
+	//   na  the path is registered for another method only (405; methodExist matches into c.values)
+	//   uo  only Use("/u/:tenant", front) matches: front probes, Next() fails with 404, then the ErrorHandler
 	chain string
 }
 
-var cfgFlags = []string{"cs", "hh", "ipv", "mw", "ph", "po", "rr", "split", "srv", "tp"} // canonical (sorted) order
+var cfgFlags = []string{"cs", "hh", "ipv", "mw", "na", "nf", "ph", "po", "rr", "split", "srv", "tp", "uo"} // canonical (sorted) order
 
 func (c config) flag(n string) bool {
 	switch n {
@@ -77,7 +81,7 @@ func (c config) flag(n string) bool {
 		return c.srv
 	case "tp":
 		return c.tp
-	case "hh", "mw", "po", "rr":
+	case "hh", "mw", "na", "nf", "po", "rr", "uo":
 		return c.chain == n
 	}
 	return false
@@ -116,7 +120,7 @@ func decodeConfig(s string) (c config, ok bool) {
 			c.srv = true
 		case "tp":
 			c.tp = true
-		case "hh", "mw", "po", "rr":
+		case "hh", "mw", "na", "nf", "po", "rr", "uo":
 			if c.chain != "" {
 				return c, false
 			}
@@ -1317,11 +1321,19 @@ func serveTCP(app *fiber.App, reqs []request) bool {
 // observe runs one case on the real code. It returns the configuration actually used: a case meant
 // for the real server falls back to the simulated connection loop when the server could not be driven.
 func observe(cfg config, q0 request, later []request) (used config, obs string, probed []string, ok bool) {
-	app := fiber.New(cfg.fiber())
-	app.RegisterCustomBinder(echoBinder{})
 	var caps, caps1 []*captured
 	first, first1, served := true, true, false
 	focus := curFocus
+	var handler func(c fiber.Ctx) error
+	fc := cfg.fiber()
+	switch cfg.chain {
+	case "nf", "na", "uo":
+		// no endpoint will be reached: the accessor set runs in the application's ErrorHandler, on a
+		// context without a matched route (Route() hands out its fallback built from the raw path)
+		fc.ErrorHandler = func(c fiber.Ctx, _ error) error { return handler(c) }
+	}
+	app := fiber.New(fc)
+	app.RegisterCustomBinder(echoBinder{})
 	echo := func(c fiber.Ctx, param string) {
 		// response headers carrying request text: the response header storage is recycled too
 		c.Set("X-Resp", "r-"+c.Params(param))
@@ -1329,7 +1341,7 @@ func observe(cfg config, q0 request, later []request) (used config, obs string, 
 			c.Set("X-Echo", v)
 		}
 	}
-	handler := func(c fiber.Ctx) error {
+	handler = func(c fiber.Ctx) error {
 		echo(c, "name")
 		if first {
 			first, served = false, true
@@ -1390,6 +1402,12 @@ func observe(cfg config, q0 request, later []request) (used config, obs string, 
 	case "po":
 		app.Use("/u/:tenant/-/*", front)
 		app.All("/u/:name/-/*", handler)
+	case "nf":
+		app.All("/never/:name/-/*", func(c fiber.Ctx) error { return c.SendString("unreachable") })
+	case "na":
+		app.Delete("/u/:name/-/*", func(c fiber.Ctx) error { return c.SendString("unreachable") })
+	case "uo":
+		app.Use("/u/:tenant", front)
 	default:
 		app.All("/u/:name/-/*", handler)
 	}
@@ -1590,8 +1608,8 @@ func main() {
 		q0 := genRequest(r)
 		cfg := config{imm: !r.Chance(1, 4), cs: r.Chance(1, 4), split: r.Chance(1, 3), ph: r.Chance(1, 4), ipv: r.Chance(1, 6), tp: r.Chance(1, 6),
 			srv: r.Chance(1, 40)}
-		if r.Chance(1, 3) {
-			cfg.chain = gen.Pick(r, []string{"hh", "mw", "mw", "rr", "po"})
+		if r.Chance(2, 5) {
+			cfg.chain = gen.Pick(r, []string{"hh", "mw", "mw", "rr", "po", "nf", "nf", "na", "uo"})
 			if cfg.chain == "po" && !cfg.imm {
 				cfg.chain = "mw" // rewriting the path is the handler's own doing: only the copies must survive it
 			}
